@@ -216,19 +216,23 @@ def _upvar_origin(prog, cb, idx):
     return None
 
 
-def classify(prog, body, node, kind):
-    """-> (highest layer, lowest layer) names, or None when not classifiable"""
+def classify(prog, body, node, kind, in_phi=False):
+    """-> (highest layer, lowest layer) names, or None when not classifiable.
+    A loop-carried value `v = phi(init, merge(v, x))` is the set of layers of init and x: the cut back reference to v itself
+    (a `local` node below the phi) adds nothing and is treated as the neutral element."""
     n = peel(node)
     shown = n.show()
+    if n.kind == "local" and in_phi:
+        return ("EMPTY", "EMPTY")
     if n.kind == "phi":
-        rs = [classify(prog, body, k, kind) for k in n.kids]
+        rs = [classify(prog, body, k, kind, True) for k in n.kids]
         if any(r is None for r in rs):
             return None
         ne = [r for r in rs if r[0] != "EMPTY"]
         rs = ne or rs
         return (max((r[0] for r in rs), key=RANK.get), min((r[1] for r in rs), key=RANK.get))
     if n.kind == "call" and (n.a.endswith("with_defaults_from") or n.a.endswith("with_overrides_from")):
-        a, b = classify(prog, body, n.kids[0], kind), classify(prog, body, n.kids[1], kind)
+        a, b = classify(prog, body, n.kids[0], kind, in_phi), classify(prog, body, n.kids[1], kind, in_phi)
         if a is None or b is None:
             return None
         both = [x for x in (a[0], a[1], b[0], b[1]) if x != "EMPTY"] or ["EMPTY"]
